@@ -50,6 +50,41 @@ Theorem C31_ticket_store_sound :
 Proof. exact nt_store_run_inv. Qed.
 Print Assumptions C31_ticket_store_sound.
 
+(* Notarization messages (notarizationProcess -> UnknownTickets -> VerifyTickets ->
+   MergeVerificationTickets): the tickets let through by UnknownTickets have pairwise distinct
+   verifiers none of which the block already has, so the block's ticket list never repeats a
+   verifier; the block is treated as notarized only with at least threshold tickets of pairwise
+   distinct miners of the magic block in the merged list, and with that many distinct VALID
+   miners when every incoming ticket is individually valid (a repeated valid ticket counts once). *)
+Theorem C31_unknown_tickets_deduplicated :
+  forall own incoming,
+    NoDup (nt_vids (nt_unknown own incoming)) /\
+    (forall t, In t (nt_unknown own incoming) -> In t incoming /\ ~ In (nt_vid t) (nt_vids own)).
+Proof. exact nt_unknown_nodup. Qed.
+Print Assumptions C31_unknown_tickets_deduplicated.
+
+Theorem C31_block_tickets_never_repeat_a_verifier :
+  forall c own incoming,
+    NoDup (nt_vids own) -> NoDup (nt_vids (nt_notarization_merged c own incoming)).
+Proof. exact nt_notarization_merged_nodup. Qed.
+Print Assumptions C31_block_tickets_never_repeat_a_verifier.
+
+Theorem C31_notarization_message_sound :
+  forall c own incoming, nt_by_count c = true -> nt_store_inv c own ->
+    nt_notarization_process c own incoming = true ->
+    let merged := nt_notarization_merged c own incoming in
+    NoDup (nt_vids merged) /\ forallb (nt_member c) merged = true /\ (nt_thr c <= length merged)%nat.
+Proof. exact nt_notarization_process_sound. Qed.
+Print Assumptions C31_notarization_message_sound.
+
+Theorem C31_notarization_message_counts :
+  forall c own incoming, nt_by_count c = true -> nt_store_inv c own ->
+    Forall (fun t => nt_err t = Some 0) incoming ->
+    nt_notarization_process c own incoming = true ->
+    (nt_thr c <= nt_valid_miners c (nt_notarization_merged c own incoming))%nat.
+Proof. exact nt_notarization_process_counts. Qed.
+Print Assumptions C31_notarization_message_counts.
+
 (* processVerifyBlock (a received block proposal): the full statement -- treated as notarized
    only with at least threshold distinct valid miners among the merged tickets -- is FALSE of the
    code: the tickets attached to the received block are merged and counted without verification. *)
@@ -88,5 +123,8 @@ Example C31_example :
   nt_verify_notarization c [v 0%nat; v 2%nat; v 2%nat] = false /\
   nt_verify_notarization c [v 0%nat; v 2%nat; v 7%nat] = false /\
   nt_verify_notarization c [v 0%nat; v 2%nat] = false /\
-  nt_process_verify_block c [] (fold_left (nt_store_add c) [v 0%nat; v 7%nat; v 2%nat; v 2%nat; v 1%nat] []) = true.
+  nt_process_verify_block c [] (fold_left (nt_store_add c) [v 0%nat; v 7%nat; v 2%nat; v 2%nat; v 1%nat] []) = true /\
+  nt_notarization_process c [] [v 1%nat; v 1%nat; v 1%nat] = false /\
+  nt_notarization_process c [] [v 1%nat; v 1%nat; v 3%nat; v 0%nat] = true /\
+  nt_vids (nt_notarization_merged c [] [v 1%nat; v 1%nat; v 3%nat; v 0%nat]) = [1; 3; 0]%nat.
 Proof. vm_compute. repeat split; reflexivity. Qed.
